@@ -409,8 +409,8 @@ class Interp:
     def op_fault(self, kind, where, mid, nth, label):
         h = self.h
         if kind == "boundary":
-            # nth: bit 0 = the pass rewrites before it fails (dirty), bit 1 = it is interrupted (BaseException)
-            cls = seams.make_boundary_fault(h, self.mods[mid].module, label, self.fault_counter, dirty=bool(nth & 1), abort=bool(nth & 2))
+            # nth: bit 0 = the pass rewrites before it fails (dirty), bit 1 = it is interrupted (BaseException), bit 2 = it raises a ValueError
+            cls = seams.make_boundary_fault(h, self.mods[mid].module, label, self.fault_counter, dirty=bool(nth & 1), abort=bool(nth & 2), valuefault=bool(nth & 4))
             e = seams.build_faulty_elaborator(h, "boundary", where, cls)
         else:
             cls = seams.make_midpass_fault(h, where, nth, label, self.fault_counter)
